@@ -14,6 +14,8 @@ fn qa(d: &str, n: &str) -> QualifiedAttribute { QualifiedAttribute::new(d, n) }
 fn ap(s: &str) -> AccessPolicy { AccessPolicy::parse(s).unwrap() }
 fn opt(s: &str) -> Option<Vec<u8>> { match s { "-" => None, "empty" => Some(vec![]), h => Some(unhex(h)) } }
 fn show(o: &Option<Vec<u8>>) -> String { match o { None => "-".into(), Some(v) if v.is_empty() => "empty".into(), Some(v) => hex(v) } }
+pub const MX_KEYS: [&str; 6] = ["D::a", "D::b", "D::c && S::h", "D::d", "S::l", "*"];
+pub const MX_POLS: [&str; 6] = ["D::a", "D::a || D::c", "D::b || D::d", "D::b || D::a", "D::d && S::l", "S::h && D::b || D::c"];
 fn main() {
     std::panic::set_hook(Box::new(|_| {}));
     let cc = Covercrypt::default();
@@ -36,6 +38,32 @@ fn main() {
                     let e = match XEnc::deserialize(&unhex(f[2])) { Ok(e) => e, Err(_) => return "UNPARSABLE".into() };
                     let c = opt(f[3]).unwrap_or_default();
                     match <Covercrypt as PkeAc<32, Aes256Gcm>>::decrypt(&cc, u, &(e, c)) { Ok(Some(p)) => format!("OK:{}", if p.is_empty() { "empty".to_string() } else { hex(&p) }), Ok(None) => "NONE".into(), Err(_) => "ERR".into() } }
+                // MATRIX R: a richer structure (classic and hybridized attributes, a hierarchy), six keys x six policies
+                // (single, classic multi-target, hybridized multi-target, MIXED classic+hybridized, conjunctions), each pair
+                // R times through the PKE and the header layer; one line per trial, judged by the caller
+                "MATRIX" => {
+                    let r: usize = f[1].parse().unwrap();
+                    let (mut m2, _) = cc.setup().unwrap();
+                    let st = &mut m2.access_structure;
+                    st.add_anarchy("D".into()).unwrap();
+                    for (n, h) in [("a", false), ("b", true), ("c", false), ("d", true)] { st.add_attribute(qa("D", n), EncryptionHint::new(h), None).unwrap(); }
+                    st.add_hierarchy("S".into()).unwrap();
+                    st.add_attribute(qa("S", "l"), EncryptionHint::Classic, None).unwrap();
+                    st.add_attribute(qa("S", "h"), EncryptionHint::Hybridized, Some("l")).unwrap();
+                    let p2 = cc.update_msk(&mut m2).unwrap();
+                    let keys: Vec<_> = MX_KEYS.iter().map(|p| cc.generate_user_secret_key(&mut m2, &ap(p)).unwrap()).collect();
+                    let mut o = String::new();
+                    for (ei, ep) in MX_POLS.iter().enumerate() { for rep in 0..r {
+                        let pt = vec![rep as u8; 3 + rep];
+                        let ct = <Covercrypt as PkeAc<32, Aes256Gcm>>::encrypt(&cc, &p2, &ap(ep), &pt).unwrap();
+                        let (hs, hd) = EncryptedHeader::generate(&cc, &p2, &ap(ep), Some(b"md"), Some(b"ad")).unwrap();
+                        let hd = EncryptedHeader::deserialize(&hd.serialize().unwrap()).unwrap();
+                        for (ki, k) in keys.iter().enumerate() {
+                            let a = match <Covercrypt as PkeAc<32, Aes256Gcm>>::decrypt(&cc, k, &ct) { Ok(Some(p)) => if *p == pt { "OK" } else { "WRONG" }, Ok(None) => "NONE", Err(_) => "ERR" };
+                            let b = match hd.decrypt(&cc, k, Some(b"ad")) { Ok(Some(c)) => if *c.secret == *hs && c.metadata.as_deref() == Some(&b"md"[..]) { "OK" } else { "WRONG" }, Ok(None) => "NONE", Err(_) => "ERR" };
+                            o += &format!("MX {ki} {ei} {rep} {a} {b};");
+                        } } }
+                    o }
                 "HDR" => { let md = opt(f[1]); let ad = opt(f[2]);
                     let (s, h) = EncryptedHeader::generate(&cc, &mpk, &pol, md.as_deref(), ad.as_deref()).unwrap();
                     format!("HDR {} {} {}", hex(&h.encapsulation.serialize().unwrap()), show(&h.encrypted_metadata), hex(&*s)) }
